@@ -23,7 +23,7 @@ every call and constructor has the right arity and types.
 
 Besides the source-side check there is a Go-side one, evaluated on the model's own output for the
 function (`goLocalOK`): the names the compiled function declares (`vn x`, `ret<n>`, `cond<n>`) are
-pairwise distinct, none of them is `_`, and none is the Go name of a callee — i.e. `go_ident` and
+pairwise distinct, none of them is `_`, and none is the Go name of a callee (`calleesA`) — i.e. `go_ident` and
 the renaming did not merge two names and no temporary captures anything.  (A type switch re-binds
 its own scrutinee variable; that binding is not a declaration in this sense: `ndDecls`.)  File level
 (`fileOK`): Go function names are pairwise distinct (so that `findFunc` finds the compiled
@@ -49,18 +49,22 @@ def scalarEq : Ty → Ty → Bool
   | .string, .string => true
   | .struct a, .struct b => a == b
   | .enum a, .enum b => a == b
+  | .ref a, .ref b => scalarEq a b
   | _, _ => false
 
-/-- scalar or a struct / enum type (by name) -/
+/-- scalar, a struct / enum type (by name), or a reference to such -/
 def flatTy : Ty → Bool
   | .struct _ => true
   | .enum _ => true
+  | .ref e => flatTy e
   | t => scalarTy t
 
-/-- value types relative to sets `S`, `E` of admitted struct and enum names -/
+/-- value types relative to sets `S`, `E` of admitted struct and enum names: scalars, admitted structs and
+    enums, references to value types -/
 def valTyS (S E : List String) : Ty → Bool
   | .struct n => S.contains n
   | .enum n => E.contains n
+  | .ref e => valTyS S E e
   | t => scalarTy t
 
 /-- `_i, _{i+1}, …` (`k` names): the Go field names of a variant struct (and of a tuple struct) -/
@@ -126,6 +130,16 @@ def enumTableOK (env : Env) (F : GFile) (n : String) : Bool :=
       | some decl => decl.map (·.1) == fieldNames 0 v.2.length
       | none => true
   | none => false
+
+/-- the emitted file declares the cell struct of a reference type of the fragment with the one field `value` -/
+def refTableOK (env : Env) (F : GFile) (t : Ty) : Bool :=
+  match t with
+  | .ref e =>
+    !valTy env t ||
+      (match F.structFields (refStructName e) with
+       | some decl => decl.map (·.1) == ["value"]
+       | none => false)
+  | _ => true
 
 def intTy : Ty → Bool
   | .int _ _ => true
@@ -261,6 +275,34 @@ def callOK (env : Env) (file : AFile) (G : List String) (Γ : Ctx) (f : Imm) (ar
        | none => false)
   | _ => false
 
+/-- the names of the reference builtins (`ref(v)`, `ref_get(r)`, `ref_set(r, v)`) -/
+def refNames : List String := ["ref", "ref_get", "ref_set"]
+
+/-- a reference type whose helpers `go_file` emits: a value type that `collect_runtime_types` finds in the file -/
+def refTyOK (env : Env) (file : AFile) (t : Ty) : Bool :=
+  valTy env t && (collectRuntimeTypes file).refs.any (Goml.Mono.tyBeq t)
+
+/-- a call of a reference builtin at the types of the cell: `ref(v) : Ref[e]`, `ref_get(r) : e`,
+    `ref_set(r, v) : unit` -/
+def refCallOK (env : Env) (file : AFile) (Γ : Ctx) (f : Imm) (args : List Imm) (ty : Ty) : Bool :=
+  match f with
+  | .var name _ =>
+    (lookupTy Γ name).isNone && rn name == name &&
+    (if name == "ref" then
+       (match ty with
+        | .ref e => argsOK env Γ args [e] && refTyOK env file (.ref e)
+        | _ => false)
+     else if name == "ref_get" then argsOK env Γ args [.ref ty] && refTyOK env file (.ref ty)
+     else if name == "ref_set" then
+       (match args with
+        | r :: _ =>
+          (match r.ty with
+           | .ref e => argsOK env Γ args [.ref e, e] && scalarEq ty .unit && refTyOK env file (.ref e)
+           | _ => false)
+        | [] => false)
+     else false)
+  | _ => false
+
 /-- how the heads of the arms of a `match` are read -/
 inductive ArmKind where
   /-- type switch on the enum variable `x` of type `sty` -/
@@ -285,7 +327,7 @@ def fragC (env : Env) (file : AFile) (G : List String) (Γ : Ctx) (K : KCtx) : C
   | .imm i => immOK env Γ i
   | .un op e ty => immOK env Γ e && unOK op e.ty ty
   | .bin op l r ty => immOK env Γ l && immOK env Γ r && binOK op l.ty r.ty ty
-  | .call f args ty => callOK env file G Γ f args ty
+  | .call f args ty => callOK env file G Γ f args ty || refCallOK env file Γ f args ty
   | .constr (.struct sn) args ty =>
     scalarEq ty (.struct sn) && (goodStructs env).contains sn &&
     (match env.getStruct sn with
@@ -358,14 +400,20 @@ def aTy : AExpr → Ty
   | .letE _ _ b _ => aTy b
 end
 
-/-- callee names occurring in an expression -/
-def calleeName : Imm → List String
-  | .var x _ => [x]
+/-- the Go name a call goes to when the callee is a variable: the `ref` / `ref_get` / `ref_set` helper of the
+    type at hand, else the escaped name -/
+def goCallee (f : Imm) (args : List Imm) (ty : Ty) : List String :=
+  match f with
+  | .var x _ =>
+    if rn x == "ref" then [helperFnName "ref" ty]
+    else if rn x == "ref_get" || rn x == "ref_set" then [helperFnName (rn x) ((args.head?.map Imm.ty).getD (.tvar 0))]
+    else [vn x]
   | _ => []
 
 mutual
+/-- Go names of the callees occurring in an expression -/
 def calleesC : CExpr → List String
-  | .call f _ _ => calleeName f
+  | .call f args ty => goCallee f args ty
   | .ite _ t e _ => calleesA t ++ calleesA e
   | .while c b _ => calleesA c ++ calleesA b
   | .matchE _ arms d _ => calleesArms arms ++ calleesD d
@@ -417,7 +465,7 @@ def goLocalOK (env : Env) (st : St) (f : AFn) : Bool :=
   let gf := (compileFn env st f).1
   let locals := Goml.Dce.localsOf gf
   (ndLocals gf).Nodup && !locals.contains "_" &&
-  (calleesA f.body).all (fun c => !locals.contains (vn c) && vn c != "_")
+  (calleesA f.body).all (fun c => !locals.contains c && c != "_")
 
 def localOK (env : Env) (file : AFile) (G : List String) (st : St) (f : AFn) : Bool :=
   srcLocalOK env file G f && goLocalOK env st f
@@ -437,9 +485,10 @@ def reservedGoNames : List String := ["fmt.Sprintf", "fmt.Print", "fmt.Println"]
 def fileOK (env : Env) (file : AFile) (n : Nat) : Bool :=
   let F := (goFilePreSt env file n).1
   (F.funcs.map (·.name)).Nodup && (file.map (·.name)).Nodup &&
-  file.all (fun f => !builtinNames.contains f.name) &&
+  file.all (fun f => !builtinNames.contains f.name && !refNames.contains f.name) &&
   reservedGoNames.all (fun r => (F.findFunc r).isNone) &&
-  structsClosed env && (goodStructs env).all (structTableOK env F) && (goodEnums env).all (enumTableOK env F)
+  structsClosed env && (goodStructs env).all (structTableOK env F) && (goodEnums env).all (enumTableOK env F) &&
+  (collectRuntimeTypes file).refs.all (refTableOK env F)
 
 /-- `G` is closed: the file-level conditions hold and every member passes the local checks with
     all its callees in `G` -/
@@ -514,7 +563,7 @@ def reasonC (env : Env) (file : AFile) (G : List String) (Γ : Ctx) (K : KCtx) :
     ((immReason env Γ l).orElse fun _ => immReason env Γ r).orElse fun _ =>
       if binOK op l.ty r.ty ty then none else some "operator:binary-type"
   | .call f args ty =>
-    if callOK env file G Γ f args ty then none
+    if callOK env file G Γ f args ty || refCallOK env file Γ f args ty then none
     else match f with
       | .var name _ =>
         if (lookupTy Γ name).isSome then some "call:through-a-local(closure/function value)"
